@@ -311,7 +311,7 @@ def parse_on(ctx, m, c, wmsg, rule_tag="C08.3-strictness", typed_validators=Fals
             gb = [s_ for s_ in g_.node.body if not (isinstance(s_, ast.Expr) and isinstance(s_.value, ast.Constant))]
             depth[0] += 1
             try:
-                r_ = Tiny(b_, default_call=oracle, model_types=True, model_strings=True, opaque_globals=True).run(gb)
+                r_ = Tiny(b_, default_call=oracle, model_types=True, model_strings=True, opaque_globals=True, local_defs=True).run(gb)
             finally:
                 depth[0] -= 1
             if r_[0] == "return":
@@ -328,7 +328,7 @@ def parse_on(ctx, m, c, wmsg, rule_tag="C08.3-strictness", typed_validators=Fals
         return Sym(f"<{fname}>")
     env[prm[0]] = list(wmsg)
     try:
-        r = Tiny(env, default_call=oracle, model_types=True, model_strings=True, opaque_globals=True).run(body)
+        r = Tiny(env, default_call=oracle, model_types=True, model_strings=True, opaque_globals=True, local_defs=True).run(body)
     except AnalysisError as e:
         raise AnalysisError(f"[{rule_tag}] {c.name}.parse outside the modelled subset: {e}")
     return r, made
